@@ -79,11 +79,19 @@ def first_diff(src, a, b):
     return {"sections_from_str": len(fa), "sections_new": len(fb)}
 
 
+def canon_gerr(line):
+    """hash-order freedom: when several %epp keys are unknown, validation reports whichever its HashMap iterates first
+    (the AST transcript canonicalises this in the harness; the grammar-level error list is compared up to the key)"""
+    if not line.startswith("GERR"):
+        return line
+    return " # ".join("E UnknownEPP *" if sec.startswith("E UnknownEPP:") else sec for sec in line.split(" # "))
+
+
 def run_part(ctx, tag="C10h"):
     exe = core.build_harness("c10yp")
     rng = ctx.rng
     texts = []                                          # (kind, T, origin)
-    for _ in range(ctx.n(150, 1500)):
+    for _ in range(ctx.n(400, 3000)):
         ag = G.random_grammar(rng)
         for style in rng.sample(G.Layout.STYLES, 2):
             t, _ = G.render(ag, G.Layout(rng, style))
@@ -92,7 +100,7 @@ def run_part(ctx, tag="C10h"):
                 k = "U"
             texts.append((k, t, "printed:" + style))
     printed = list(texts)
-    for _ in range(ctx.n(1500, 15000)):
+    for _ in range(ctx.n(4000, 30000)):
         k, t, _ = rng.choice(printed)
         m = G.mutate(rng, t)
         if rng.random() < 0.25:
@@ -162,7 +170,7 @@ def run_part(ctx, tag="C10h"):
         elif rh != rb:
             bad = {"what": "ASTWithValidityInfo::new(kind, H+T) and new(kind, blanks+T) differ: spans after a %grmtools header do not "
                            "select the defining text", "first_difference": first_diff(src, rh, rb)}
-        elif fg != ng:
+        elif canon_gerr(fg) != canon_gerr(ng):
             bad = {"what": "YaccGrammar::from_str(H+T) and YaccGrammar::new(kind, blanks+T) answer an accessor differently",
                    "first_difference": first_diff(src, fg, ng)}
         if bad:
